@@ -218,7 +218,18 @@ fn msg(locale: &str, key: &str, json: bool) -> String {
     }
 }
 
+/// the localization tables passage ships as its default configuration
+pub fn shipped_loc() -> LocV {
+    let d = passage::config::FixedLocalization::default();
+    LocV::Fixed { default_locale: d.default_locale, tables: d.messages.into_iter().map(|(k, v)| (k, v.into_iter().collect())).collect() }
+}
+
 fn loc_strategy() -> BoxedStrategy<(String, LocV)> {
+    let shipped = proptest::sample::select(vec!["fr_FR", "fr_fr", "fr", "es_MX", "es", "de_AT", "de", "zh-CN", "zh_CN", "ru_RU", "ru", "en_GB", "en", "ja_JP", "", "pt_br"]).prop_map(|reported| (reported.to_string(), shipped_loc()));
+    prop_oneof![6 => generated_loc_strategy(), 1 => shipped].boxed()
+}
+
+fn generated_loc_strategy() -> BoxedStrategy<(String, LocV)> {
     let pool = locale_pool();
     (proptest::sample::select(pool.clone()), proptest::sample::select(pool), any::<u8>(), any::<u8>())
         .prop_map(|(reported, default, subset, style)| {
